@@ -123,13 +123,26 @@ def optimize(expr):
 
 def resolve(expr, start={}):
     '''Variable environment resolution pass '''
-    scopes=[None, dict(start)]
+    scopes=[None, dict.fromkeys(start, True)]
+
+    def predefine(env, body):
+        '''Names that the straight-line defines of this scope body will bind. They are
+        entered as False (not defined yet): a reference written before the define is
+        neither resolved to this scope nor past it, it stays a dynamic lookup.'''
+        for sub in body:
+            if isinstance(sub, WList) and len(sub) > 1:
+                if sub[0] == Operator.DEFINE and isinstance(sub[1], Symbol):
+                    env.setdefault(sub[1].name, False)
+                elif sub[0] == Operator.DO:
+                    predefine(env, sub[1:])
+
     def resolve_vars(expr):
         if isinstance(expr, WList) and len(expr) > 0:
             op = expr[0]
             if op == Operator.DEFINE:
                 id = expr[1]
-                assert id.name not in scopes[-1], f'symbol {id} already defined'
+                assert not scopes[-1].get(id.name), f'symbol {id} already defined'
+                scopes[-1].setdefault(id.name, False)
                 body = resolve_vars(expr[2])
                 scopes[-1][expr[1].name] = True
                 return WList([Operator.DEFINE, id, body], line_info=expr.line_info)
@@ -139,6 +152,7 @@ def resolve(expr, start={}):
                 for binding in expr[1]:
                     env[binding[0].name] = True
 
+                predefine(env, expr[2:])
                 body = [resolve_vars(sub) for sub in expr[2:]]
                 scopes.pop()
                 return WList([Operator.LET, expr[1], *body], line_info=expr.line_info)
@@ -155,6 +169,7 @@ def resolve(expr, start={}):
                 else:
                     assert False, 'fn: first argument must be a list or a symbol'
 
+                predefine(env, expr[2:])
                 body = [resolve_vars(sub) for sub in expr[2:]]
                 scopes.pop()
                 return WList([Operator.FN, expr[1], *body])
@@ -171,7 +186,7 @@ def resolve(expr, start={}):
             while scopes[-steps-1] is not None and id not in scopes[-steps-1]:
                 steps += 1
 
-            if scopes[-steps-1]:
+            if scopes[-steps-1] and scopes[-steps-1][id]:
                 return Symbol(expr.name, steps)
             else:
                 # if the symbol is not defined it still can be a signal
@@ -181,5 +196,6 @@ def resolve(expr, start={}):
         # all other expressions can just be returned as they are
         return expr
 
+    predefine(scopes[-1], [expr])
     return(resolve_vars(expr))
 
